@@ -2,6 +2,12 @@
 
 package fit
 
+import (
+	"encoding/binary"
+
+	"github.com/tormoder/fit/internal/types"
+)
+
 // C01 — decoding entry points are total.
 
 // H01d: bounded whole run. Concrete 14-byte header with data size D, D + 2
@@ -20,4 +26,119 @@ func H01d() {
 		vReached("accepted")
 	}
 	vReached("end")
+}
+
+// vStrSizes is the set of sizes run for string definitions in the quick
+// tier; the scan for the terminator forks once per data byte, so the path
+// count is quadratic in the size. The thorough tier runs every size.
+var vStrSizes = func() (t [256]bool) {
+	for i := 0; i <= 8; i++ {
+		t[i] = true
+	}
+	for _, i := range []int{16, 127, 128, 254, 255} {
+		t[i] = true
+	}
+	return
+}()
+
+// vNoOrder is handed to the parser as byte order where it must never be
+// consulted (single-byte definition of a plain field): any call fails.
+type vNoOrder struct{}
+
+func (vNoOrder) Uint16(b []byte) uint16     { vAssert(false, "C01.field.order-consulted"); return 0 }
+func (vNoOrder) Uint32(b []byte) uint32     { vAssert(false, "C01.field.order-consulted"); return 0 }
+func (vNoOrder) Uint64(b []byte) uint64     { vAssert(false, "C01.field.order-consulted"); return 0 }
+func (vNoOrder) PutUint16(b []byte, v uint16) {}
+func (vNoOrder) PutUint32(b []byte, v uint32) {}
+func (vNoOrder) PutUint64(b []byte, v uint64) {}
+func (vNoOrder) String() string             { return "vNoOrder" }
+
+// H01a: every single-field definition for one profile message (parameter
+// gmn), followed by matching data. Symbolic: field number, base-type byte,
+// size, byte order, the data bytes. Asserted: whatever the definition says,
+// validation either rejects it or the data record decodes without panicking
+// (reflect-model panics, bounds, nil) and consumes exactly size bytes.
+//
+// Control-flow drivers are case-split exhaustively (every feasible value of
+// the base-type byte, and of the size for profile fields, becomes a path);
+// data stays symbolic.
+func H01a() {
+	gmn := MesgNum(vParam("gmn"))
+	allstr := vParam("allstr") == 1
+	var d decoder
+	// Both counting options on: they only add statements (the map updates);
+	// that options never change results is C16's subject.
+	d.opts.unknownFields = true
+	d.opts.unknownMessages = true
+	d.unknownFields = make(map[unknownField]int)
+	d.unknownMessages = make(map[MesgNum]int)
+	fd := fieldDef{num: vByte(), size: vByte(), btype: types.Base(vByte())}
+	if err := d.validateFieldDef(gmn, fd); err != nil {
+		vReached("rejected")
+		vReached("end")
+		return
+	}
+	fd.btype = types.Base(vConcretize(int(fd.btype)))
+	var data [255]byte
+	var arch binary.ByteOrder = vNoOrder{}
+	needOrder := fd.btype.Size() > 1
+	pf, found := getField(gmn, fd.num)
+	if found && knownMsgNums[gmn] {
+		isStr := fd.btype == types.BaseString
+		if isStr && !allstr {
+			vAssume(vStrSizes[fd.size])
+		}
+		if isStr && pf.t.Array() {
+			vStringArrayData(&fd, data[:], allstr)
+		} else {
+			fd.size = byte(vConcretize(int(fd.size)))
+			vBytes(data[:fd.size])
+		}
+		if pf.t.Kind() != types.NativeFit {
+			needOrder = true
+		}
+	}
+	// (an unknown field's bytes are skipped unread: left zero, size symbolic)
+	if needOrder {
+		arch = vArch(vBool())
+	}
+	vFeed(&d, data[:])
+	d.bytes.limit = int(fd.size)
+	d.timestamp = vU32()
+	d.lastTimeOffset = int32(d.timestamp & 31)
+	dm := &defmsg{arch: arch, globalMsgNum: gmn, fields: 1, fieldDefs: []fieldDef{fd}}
+	d.defmsgs[0] = dm
+	msg, err := d.parseDataMessage(0, false)
+	if err == nil {
+		vAssert(msg.IsValid() == knownMsgNums[gmn], "C01.field.msg-valid-iff-known")
+		vAssert(d.bytes.n == int(fd.size), "C01.field.consumed-size")
+		vReached("decoded")
+	}
+	vReached("end")
+}
+
+// vStringArrayData prepares the data of a string-array definition. The
+// splitter forks on every byte (terminator or not), 2^size paths, so: sizes
+// 0..6 are fully symbolic; larger sizes get non-zero bytes with one
+// terminator at an arbitrary position (or none); thorough: two terminators.
+func vStringArrayData(fd *fieldDef, data []byte, thorough bool) {
+	fd.size = byte(vConcretize(int(fd.size)))
+	n := int(fd.size)
+	if n <= 6 {
+		vBytes(data[:n])
+		return
+	}
+	for i := 0; i < n; i++ {
+		data[i] = vByte() | 1
+	}
+	p := vConcretize(vInt(0, n)) // n: no terminator
+	if p < n {
+		data[p] = 0
+	}
+	if thorough {
+		q := vConcretize(vInt(0, n))
+		if q < n {
+			data[q] = 0
+		}
+	}
 }
